@@ -280,6 +280,7 @@ func (c *Case) nodeConfig(rc *recorder) *qbft.Config {
 
 func newCase(env *Env, op spectypes.OperatorID, height specqbft.Height, bad [][]byte, ctrlMode, withSpec, withShadow bool) *Case {
 	c := &Case{env: env, in: NewIntern(env.identifier), op: op, height: height, bad: bad, ctrlMode: ctrlMode, rc: &recorder{}}
+	regCase(c)
 	c.cfg = c.nodeConfig(c.rc)
 	share := env.share(op)
 	if ctrlMode {
